@@ -50,7 +50,7 @@ SPEC = {
              'the argument unchanged, size not larger, result well formed. Non-trivial: the result differs '
              'structurally from the argument.'),
     'assumptions': ['reference truth tables from vlib/refsem.py'],
-    'subs': [Sub('preserve', simp.cases, check_preserve, {'quick': 3000, 'thorough': 40000})],
+    'subs': [Sub('preserve', simp.cases, check_preserve, {'quick': 3000, 'thorough': 200000})],
     'required_classes': {'preserve': ['pass:RRG', 'pass:RRG+rm', 'pass:MU', 'pass:MDG', 'pass:MEG', 'top:pipe',
                                       'top:comp', 'top:list', 'top:cleanup', 'LR_gate', 'constant', 'dead_gate',
                                       'dup_output', 'output_is_input', 'nary>=3']},
